@@ -129,6 +129,82 @@ def load_uncut(name, fmt, data, budget=None):
     return rec
 
 
+def numeric_fields_differ(a, b):
+    """True when two frames differ in numeric content (arrays / scalars of numbers), as opposed to text."""
+    import attrs
+    import numpy as np
+
+    def num_items(obj, prefix=""):
+        out = {}
+        for f in attrs.fields(type(obj)):
+            v = getattr(obj, f.name)
+            items = v.items() if isinstance(v, dict) else [("", v)]
+            for k, x in items:
+                if isinstance(x, np.ndarray) and x.dtype.kind in "fiu":
+                    out[f"{f.name}.{k}"] = x
+                elif isinstance(x, (int, float)) and not isinstance(x, bool):
+                    out[f"{f.name}.{k}"] = np.array(x)
+        return out
+
+    na, nb = num_items(a), num_items(b)
+    for k in set(na) | set(nb):
+        if k not in na or k not in nb or na[k].shape != nb[k].shape or not np.array_equal(na[k], nb[k], equal_nan=True):
+            return True
+    return False
+
+
+def perturbed_token(tok):
+    """A different, still valid number of the same style as the given numeric token (or None)."""
+    try:
+        if tok.strip().lstrip("+-").isdigit():
+            return str(int(tok) + 1)
+        val = float(tok)
+    except ValueError:
+        return None
+    dec = len(tok.split(".")[1].rstrip("eEdD+-0123456789")) if "." in tok and "e" not in tok.lower() else None
+    if dec is not None:
+        dec = len(tok.split(".")[1])
+        return f"{val + 0.5:.{dec}f}"
+    return repr(val + 0.5)
+
+
+def run_lockstep(name, fmt, data_a, data_b, budget):
+    """Two load_many iterators alive at once in one thread, advanced in turn (as zip() would).  Returns the
+    frames / exception / own LoadWarnings of the second one."""
+    import iodata
+
+    from sim.sched import Steps
+
+    disk = seams.SimDisk(log_events=False)
+    pa, pb = "a/" + name, "b/" + name
+    disk.put(pa, data_a)
+    disk.put(pb, data_b)
+    frames_b, exc_b = [], None
+    with seams.Installed(disk), warnings.catch_warnings(record=True) as wl, Steps(budget) as st:
+        warnings.simplefilter("always")
+        ga, gb = iodata.load_many(pa, fmt=fmt), iodata.load_many(pb, fmt=fmt)
+        done_a = done_b = False
+        while not (done_a and done_b):
+            if not done_a:
+                try:
+                    next(ga)
+                except StopIteration:
+                    done_a = True
+                except Exception:  # noqa: BLE001
+                    done_a = True
+            if not done_b:
+                try:
+                    frames_b.append(next(gb))
+                except StopIteration:
+                    done_b = True
+                except Exception as exc:  # noqa: BLE001
+                    exc_b = exc
+                    done_b = True
+        ga = gb = None
+    warned_b = any(type(x.message).__name__ == "LoadWarning" and pb in str(x.message) for x in wl)
+    return {"frames": frames_b, "exc": exc_b, "warned": warned_b, "handles_open": len(disk.open_handles()), "steps": st.steps}
+
+
 def _generic(trace7, rec):
     """C07's items 1-4 on this load (termination, exception types, file name, handles)."""
     out = []
@@ -270,6 +346,20 @@ def check_source(trace, stats=None, cuts=None, corruptions=None):
                 break
         if partial > 1:
             vs.append(_v("many_partial_frames", f"cut after line {ncut}: {partial} partial frames yielded", tr, "cut"))
+        if ncut % 4 == 1 or trace.get("fault"):
+            # the same cut file read in lock-step with a second, intact trajectory: nothing may change for it
+            ls = run_lockstep(name, fmt, data0, data, budget)
+            n_eval += 1
+            Yl = [canon.iodata_digest(d) for d in ls["frames"]]
+            solo_warned = any(w_.startswith("LoadWarning") for w_ in rec["warning_msgs"])
+            if Yl != Y or type(ls["exc"]) is not type(exc) or ls["warned"] != solo_warned:
+                vs.append(_v("lockstep_differs", f"cut after line {ncut}: read alone -> {len(Y)} frames, {type(exc).__name__ if exc else 'no error'}, "
+                             f"LoadWarning={solo_warned}; read in lock-step with another load_many iterator -> {len(Yl)} frames, "
+                             f"{type(ls['exc']).__name__ if ls['exc'] else 'no error'}, LoadWarning={ls['warned']}", tr, "cut"))
+            if ls["handles_open"]:
+                vs.append(_v("handle_leak", f"cut after line {ncut}: file(s) left open after two interleaved iterators finished", tr, "lockstep"))
+            if stats is not None:
+                stats.inc("probe.lockstep_runs")
         if stats is not None:
             stats.inc("fault.crash_prefix")
             stats.inc("steps", rec["steps"])
@@ -301,6 +391,32 @@ def check_source(trace, stats=None, cuts=None, corruptions=None):
         m = next((i for i, e in enumerate(E) if e is not None and line < e), None)
         if m is None:
             return vs  # trailing material after the last frame
+        if exc is None and len(Y) == N and m < len(rec["frames"]) and modname in ("xyz", "pdb", "sdf", "mol2", "gromacs"):
+            # (formats with typed, positional numeric fields; extended XYZ key=value data are typed dynamically)
+            # Was the field ignored by the parser, or is it a number the parser reads?  Replace it by another valid
+            # number: if the frame's numeric content follows, the field is parsed as a number and garbage in it is a
+            # malformed frame, which must raise LoadError instead of being tolerated.
+            ls_ = data0.splitlines(keepends=True)
+            toks = list(faults.NUM_RE.finditer(ls_[line])) if line < len(ls_) else []
+            if toks:
+                tk = toks[min(f["tok"], len(toks) - 1)]
+                new_tok = perturbed_token(ls_[line][tk.start():tk.end()].decode("ascii", "replace"))
+                if new_tok is not None:
+                    pdata = faults.apply(data0, {**f, "token": new_tok, "keep_width": True})
+                    prec = c07.run_load(name, fmt, "load_many", pdata, ("exhaust", 0), None, budget)
+                    n_eval += 1
+                    # the garbage must sit exactly where the number sat (fixed-column formats), and a tolerated field
+                    # that is announced by a LoadWarning (e.g. an unknown MOL2 bond type) is fine
+                    width = tk.end() - tk.start()
+                    exact = {**f, "token": ("x" + "#" * (width - 1)), "keep_width": True}
+                    grec = c07.run_load(name, fmt, "load_many", faults.apply(data0, exact), ("exhaust", 0), None, budget)
+                    n_eval += 1
+                    tolerated = grec["exc"] is None and len(grec["frames"]) == N and "LoadWarning" not in grec["warnings"]
+                    if tolerated and prec["exc"] is None and len(prec["frames"]) == N and numeric_fields_differ(prec["frames"][m], base["frames"][m]):
+                        if stats is not None:
+                            stats.inc("probe.numeric_field_sensitivity_established")
+                        vs.append(_v("garbage_in_numeric_field_tolerated", f"frame {m}, line {line + 1}: the field is parsed as a number "
+                                     f"(changing it to {new_tok} changes the frame's numbers) but garbage of the same width in its place was accepted without LoadError or LoadWarning", {**trace, "fault": exact}, "field"))
         if exc is None:
             if len(Y) < N:
                 vs.append(_v("silent_end", f"garbage token in frame {m} (line {line + 1}): sequence ended silently after {len(Y)} of {N} frames", tr, "field"))
